@@ -2557,8 +2557,36 @@ FOLD_NATIVE_TEST = r"""
         }
         let shapes: Vec<Vec<usize>> = vec![
             vec![6], vec![2, 3], vec![3, 2], vec![1, 6], vec![6, 1], vec![2, 3, 1], vec![1, 2, 3], vec![3, 1, 2],
-            vec![4], vec![2, 2], vec![4, 1], vec![12], vec![3, 4], vec![4, 3], vec![2, 6], vec![2, 2, 3], vec![3, 2, 2], vec![5], vec![9], vec![3, 3],
+            vec![4], vec![2, 2], vec![4, 1], vec![1, 5], vec![1, 2], vec![2, 1, 3], vec![1, 1, 4], vec![1], vec![1, 1], vec![12], vec![3, 4], vec![4, 3], vec![2, 6], vec![2, 2, 3], vec![3, 2, 2], vec![5], vec![9], vec![3, 3],
         ];
+        // every cell against the definition of the fold (per-axis mirror, index sum against half the
+        // total count, average on the diagonal, fill below it): an unrecognised from_spectrum that is
+        // history-free but wrong is a violation of C05 as well
+        for s in &shapes {
+            let n: usize = s.iter().product();
+            let total: usize = s.iter().map(|l| l - 1).sum();
+            let val = |i: usize| (i * i + 1) as f64;
+            let mut want = Vec::with_capacity(n);
+            for i in 0..n {
+                let (mut rem, mut sum, mut mirror, mut stride) = (i, 0usize, 0usize, 1usize);
+                for l in s.iter().rev() {
+                    let c = rem % l;
+                    rem /= l;
+                    sum += c;
+                    mirror += (l - 1 - c) * stride;
+                    stride *= l;
+                }
+                let w = if 2 * sum < total {
+                    val(i) + val(mirror)
+                } else if 2 * sum == total {
+                    (val(i) + val(mirror)) / 2.0
+                } else {
+                    -1.0
+                };
+                want.push(w.to_bits());
+            }
+            assert_eq!(bits(s), want, "fold of shape {s:?} differs from the definition");
+        }
         for a in &shapes {
             for b in &shapes {
                 let (a1, b1, b2) = (a.clone(), b.clone(), b.clone());
